@@ -446,7 +446,7 @@ def judge(res, reqs):
     return c13, c14
 
 
-def judge_eof(res, reqs):
+def judge_eof(res, reqs, want=None):
     """C11 for a connection shared by threads: once the stream has ended nobody hangs, every request either got its own reply
     or fails with EOFError, and the connection is closed"""
     bad = []
@@ -462,7 +462,7 @@ def judge_eof(res, reqs):
             elif o[0] == "exc":
                 if not (o[1].startswith("EOFError") or (r.endswith("x") and o[1].startswith("ValueError"))):
                     bad.append(("eof-wrong-exception", "request %s of %s failed with %s, not EOFError, when the stream ended" % (r, t, o[1])))
-            elif o[1] != tag(r):
+            elif o[1] != (want(r) if want else tag(r)):
                 bad.append(("eof-crossed", "request %s of %s completed with %r" % (r, t, o[1])))
     for n, e in res["excs"].items():
         bad.append(("eof-exception", "thread %s died with %s" % (n, e)))
@@ -471,9 +471,9 @@ def judge_eof(res, reqs):
     return bad
 
 
-def explore_eof(chk, cfgname, on_bad, n_random=60):
+def explore_eof(chk, cfgname, on_bad, n_random=60, configs=None, fixture=None, want=None):
     """the peer vanishes at an arbitrary moment while several threads use the connection"""
-    cfg = CONFIGS[cfgname]
+    cfg = (configs or CONFIGS)[cfgname]
     rnd = random.Random(chk.seed * 7919 + sum(map(ord, cfgname)))
     n = 0
     for i in range(n_random):
@@ -481,10 +481,10 @@ def explore_eof(chk, cfgname, on_bad, n_random=60):
             ch = pct_chooser(random.Random(rnd.random()), depth=rnd.choice([1, 2, 3]), horizon=rnd.choice([30, 60, 150]))
         else:
             ch = random_chooser(random.Random(rnd.random()), rnd.choice([0.0, 0.5, 0.85]))
-        res = run_impl(cfg["reqs"], cfg["bg"], ch, eof=True)
+        res = run_impl(cfg["reqs"], cfg["bg"], ch, eof=True, fixture=fixture or fixture_of(cfg))
         chk.evaluated()
         n += 1
-        bad = judge_eof(res, cfg["reqs"])
+        bad = judge_eof(res, cfg["reqs"], want)
         chk.distinct(("eof-sched", cfgname, tuple((e.get("t"), e.get("op"), e.get("wake")) for e in res["trace"])))
         if bad:
             on_bad(bad, {"mode": "eof-indices", "config": cfgname, "indices": ch.record})
